@@ -1,12 +1,18 @@
 /-
-C17 — ska lo SNP calls: well-formedness logic of the modelled helpers.
-First theorems; `T17_wf` / `T17_graph` are being added.
+C17 — ska lo SNP calls: well-formedness logic of the modelled helpers
+(`check_missing_data`, `complement_snp`, `get_potential_snp`, the writer
+`create_fasta_and_vcf`, the VCF genotype indices, the row graph of `build_graph`).
+Proofs: `SkaModel/Lemmas/LOBasic.lean`, `LOCol.lean`, `LOCalls.lean`,
+`LOWriterSort.lean`, `LOWriter.lean`, `LOGraph.lean`.
 -/
 import SkaModel.Impl.Skalo
+import SkaModel.Lemmas.LOCalls
+import SkaModel.Lemmas.LOWriter
+import SkaModel.Lemmas.LOGraph
 
 namespace SkaModel.Props.C17
 
-open SkaModel SkaModel.Skalo
+open SkaModel SkaModel.Skalo SkaModel.Spec SkaModel.Props.C16
 
 /-- `check_missing_data` accepts a column exactly when it shows at least two of A/C/G/T,
 and reports the number of entries that are none of them -/
@@ -19,5 +25,221 @@ theorem T17_complement_invol : ∀ b : UInt8, ∀ c, complementSnp [b] = some [c
   simp only [complementSnp, List.mapM_cons, List.mapM_nil] at h ⊢
   by_cases h1 : b = 65 <;> by_cases h2 : b = 84 <;> by_cases h3 : b = 67 <;> by_cases h4 : b = 71 <;>
     by_cases h5 : b = 45 <;> by_cases h6 : b = 78 <;> simp_all <;> (subst_vars; simp)
+
+/-! ### 1. `check_missing_data` -/
+
+/-- the flag: at least two distinct A/C/G/T alleles; the count: entries that are not A/C/G/T -/
+theorem T17_check_spec (col : List UInt8) :
+    ((checkMissingData col).1 = true ↔ 2 ≤ ((col.filter isACGT).eraseDups).length) ∧
+    (checkMissingData col).2 = col.length - (col.filter isACGT).length :=
+  ⟨LO.check_fst col, LO.check_snd col⟩
+
+/-- the same flag, as "two different A/C/G/T letters occur in the column" -/
+theorem T17_check_exists (col : List UInt8) :
+    (checkMissingData col).1 = true ↔
+      ∃ a b, a ≠ b ∧ isACGT a = true ∧ isACGT b = true ∧ a ∈ col ∧ b ∈ col :=
+  LO.check_fst_exists col
+
+/-- `eraseDups` does produce a duplicate-free list (so its length counts distinct alleles) -/
+theorem T17_eraseDups_nodup (col : List UInt8) : ((col.filter isACGT).eraseDups).Nodup :=
+  LO.nodup_eraseDups _
+
+/-! ### 2. `complement_snp` -/
+
+/-- the entries `complement_snp` accepts -/
+def OkBase (b : UInt8) : Prop := b = 65 ∨ b = 67 ∨ b = 71 ∨ b = 84 ∨ b = 45 ∨ b = 78
+
+/-- A<->T, C<->G, '-' and N fixed, as a relation on entries -/
+def CompPair (b c : UInt8) : Prop :=
+  (b = 65 ∧ c = 84) ∨ (b = 84 ∧ c = 65) ∨ (b = 67 ∧ c = 71) ∨ (b = 71 ∧ c = 67) ∨
+  (b = 45 ∧ c = 45) ∨ (b = 78 ∧ c = 78)
+
+theorem compPair_of_ok (b : UInt8) (h : LO.okBase b) : CompPair b (LO.comp b) := by
+  unfold LO.okBase at h
+  rcases h with h | h | h | h | h | h <;> subst h <;> unfold CompPair <;> decide
+
+theorem T17_complement (col : List UInt8) :
+    -- defined exactly on columns over A, C, G, T, '-', N
+    ((complementSnp col).isSome = true ↔ ∀ b ∈ col, OkBase b) ∧
+    ∀ col', complementSnp col = some col' →
+      -- same length, pointwise complement
+      col'.length = col.length ∧
+      (∀ i (h : i < col.length) (h' : i < col'.length), CompPair col[i] col'[i]) ∧
+      -- involution
+      complementSnp col' = some col ∧
+      -- the complemented column too: same acceptance flag and missing count
+      checkMissingData col' = checkMissingData col := by
+  refine ⟨LO.complementSnp_isSome col, ?_⟩
+  intro col' h
+  obtain ⟨hok, hc⟩ := (LO.complementSnp_eq_some col col').1 h
+  refine ⟨by rw [hc, List.length_map], ?_, LO.complementSnp_invol col col' h,
+    LO.check_complement col col' h⟩
+  intro i hi hi'
+  subst hc
+  rw [List.getElem_map]
+  exact compPair_of_ok _ (hok _ (List.getElem_mem hi))
+
+/-- consequence spelled out: the complemented column has ≥ 2 distinct ACGT alleles iff the original has -/
+theorem T17_complement_check (col col' : List UInt8) (h : complementSnp col = some col') :
+    (2 ≤ ((col'.filter isACGT).eraseDups).length ↔ 2 ≤ ((col.filter isACGT).eraseDups).length) ∧
+    col'.length - (col'.filter isACGT).length = col.length - (col.filter isACGT).length := by
+  have hc := LO.check_complement col col' h
+  refine ⟨?_, ?_⟩
+  · rw [← LO.check_fst, ← LO.check_fst, hc]
+  · rw [← LO.check_snd, ← LO.check_snd, hc]
+
+/-! ### 3. `get_potential_snp` -/
+
+theorem T17_potential (variants : List (List UInt8 × List Nat)) :
+    (∀ p, p ∈ getPotentialSnp variants ↔
+      -- p is marked in some variant
+      (∃ v ∈ variants, p ∈ v.2) ∧
+      -- two distinct A/C/G/T letters occur at position p (only sequences longer than p have `[p]?`)
+      ∃ a b, a ≠ b ∧ isACGT a = true ∧ isACGT b = true ∧
+        (∃ v ∈ variants, v.1[p]? = some a) ∧ (∃ v ∈ variants, v.1[p]? = some b)) ∧
+    -- sorted increasing, hence duplicate free
+    (getPotentialSnp variants).Pairwise (fun a b => a < b) ∧
+    (getPotentialSnp variants).Nodup :=
+  ⟨LO.mem_getPotentialSnp variants, LO.getPotentialSnp_sorted variants,
+    (LO.getPotentialSnp_sorted variants).imp (fun h => Nat.ne_of_lt h)⟩
+
+/-! ### 4. the writer `create_fasta_and_vcf` -/
+
+/-- sanitised reference base: A/C/G/T/N kept, everything else N -/
+abbrev san := LOW.san
+
+/-- position order is a strictly increasing rearrangement of the variants -/
+theorem T17_position_order (variants : List (Nat × List UInt8)) (hnd : (variants.map (·.1)).Nodup) :
+    (sortByKey (·.1) variants).Perm variants ∧
+    (sortByKey (·.1) variants).Pairwise (fun a b => a.1 < b.1) :=
+  ⟨LOW.sortByKey_perm' _ _, LOW.sortByKey_strictSorted _ _ hnd⟩
+
+theorem T17_writer (genome : List UInt8) (n : Nat) (variants : List (Nat × List UInt8))
+    (hnd : (variants.map (·.1)).Nodup)
+    (hcol : ∀ v ∈ variants, v.2.length = n)
+    (hpos : genome ≠ [] → ∀ v ∈ variants, v.1 < genome.length) :
+    let o := createFastaAndVcf genome n variants
+    let sorted := sortByKey (·.1) variants
+    -- (a) SNP alignment: n sequences; sequence i lists the i-th entries of the columns in position order
+    (o.snpSeqs.length = n ∧ ∀ i, i < n → o.snpSeqs[i]? = some (sorted.map (fun v => v.2.getD i 45)))
+    -- (b) with a genome: pseudo-genomes and VCF records
+    ∧ (genome ≠ [] →
+        (∃ ps, o.pseudo = some ps ∧ ps.length = n ∧
+          ∀ i, i < n → ∃ s, ps[i]? = some s ∧ s.length = genome.length ∧
+            ∀ q, q < genome.length →
+              (∀ v ∈ variants, v.1 = q → s[q]? = some (v.2.getD i 45)) ∧
+              ((∀ v ∈ variants, v.1 ≠ q) → s[q]? = some (san (genome.getD q 0))))
+        ∧ o.vcf = sorted.map (fun v => (v.1, san (genome.getD v.1 0), v.2)))
+    -- (c) without a genome
+    ∧ (genome = [] → o.pseudo = none ∧ o.vcf = []) :=
+  LOW.writer_spec genome n variants hnd hcol hpos
+
+/-- every sequence of the alignment has one character per variant -/
+theorem T17_writer_lengths (genome : List UInt8) (n : Nat) (variants : List (Nat × List UInt8))
+    (hnd : (variants.map (·.1)).Nodup)
+    (hpos : genome ≠ [] → ∀ v ∈ variants, v.1 < genome.length) :
+    ∀ s ∈ (createFastaAndVcf genome n variants).snpSeqs, s.length = variants.length := by
+  intro s hs
+  have h := (LOW.writer_spec' genome n variants hnd hpos).1
+  obtain ⟨i, hi, rfl⟩ := List.mem_iff_getElem.1 hs
+  rw [h.1] at hi
+  have h2 := h.2 i hi
+  rw [List.getElem?_eq_getElem (by rw [h.1]; exact hi)] at h2
+  rw [Option.some.inj h2, List.length_map, LOW.sortByKey_length]
+
+/-- the closed form of the writer's output -/
+theorem T17_writer_closed (genome : List UInt8) (n : Nat) (variants : List (Nat × List UInt8))
+    (hnd : (variants.map (·.1)).Nodup)
+    (hpos : genome ≠ [] → ∀ v ∈ variants, v.1 < genome.length) :
+    createFastaAndVcf genome n variants =
+      { snpSeqs := LOW.seqsOf n (sortByKey (·.1) variants),
+        pseudo := if genome.isEmpty then none
+          else some (LOW.pseudoOf (genome.map san) (sortByKey (·.1) variants) n genome.length),
+        vcf := if genome.isEmpty then [] else LOW.vcfOf (genome.map san) (sortByKey (·.1) variants) } :=
+  LOW.createFastaAndVcf_closed genome n variants hnd hpos
+
+/-! ### 5. VCF genotype indices decode to the entry -/
+
+/-- `alt_bases`: the distinct entries other than REF, '-' and N -/
+abbrev altBases := LO.altBases
+/-- genotype of entry `b` against an ALT list: `some 0` = "0", `none` = ".", `some (j+1)` = ALT j (1-based) -/
+abbrev gtIndexWith := LO.gtIndexWith
+/-- genotype of entry `b` in the record `(rb, col)` -/
+abbrev gtIndex := LO.gtIndex
+/-- reading a genotype back through REF / ALT -/
+abbrev decode := LO.decode
+
+theorem T17_vcf_decode (rb : UInt8) (col : List UInt8) (b : UInt8) (hb : b ∈ col) :
+    decode rb (altBases rb col) (gtIndex rb col b) = if b == rb then rb else vcfGenotypeChar b :=
+  LO.decode_gtIndex rb col b hb
+
+/-- the Rust collects `alt_bases` through a `HashSet`: the statement holds for any ordering -/
+theorem T17_vcf_decode_any_order (rb : UInt8) (col alts : List UInt8)
+    (halts : ∀ c, c ∈ alts ↔ c ∈ col ∧ c ≠ rb ∧ c ≠ 45 ∧ c ≠ 78) (b : UInt8) (hb : b ∈ col) :
+    decode rb alts (gtIndexWith rb alts b) = if b == rb then rb else vcfGenotypeChar b :=
+  LO.decode_gtIndexWith rb col alts halts b hb
+
+theorem T17_altBases (rb : UInt8) (col : List UInt8) :
+    (altBases rb col).Nodup ∧ ∀ c, c ∈ altBases rb col ↔ c ∈ col ∧ c ≠ rb ∧ c ≠ 45 ∧ c ≠ 78 :=
+  ⟨LO.altBases_nodup rb col, LO.mem_altBases rb col⟩
+
+/-! ### 6. the row graph: (k-1)-mer de Bruijn edges on both strands with IUPAC expansion -/
+
+/-- bases (order A, C, G, T) shown by at least one sample, with IUPAC expansion -/
+abbrev shownBases := LOG.shownBases
+/-- the samples showing base `n`: `{i | cell i ≠ '-' ∧ n ∈ degenerate (cell i)}` -/
+abbrev samplesOf := LOG.samplesOf
+
+theorem T17_graph (W k : Nat) (hk : ValidK k) (hw : WidthOk W k) (u l : List Nat)
+    (hu : u.length = halfK k) (hl : l.length = halfK k)
+    (hcu : ∀ c ∈ u, c < 4) (hcl : ∀ c ∈ l, c < 4) (cells : List UInt8) :
+    rowGraph W k (packL (u ++ l)) cells =
+      ((shownBases cells).flatMap (fun n =>
+          let full := u ++ [code n] ++ l      -- the codes of the k-mer  U n L
+          [ (packL (full.take (k - 1)), packL (full.drop 1)),
+            (packL (rcCodes (full.drop 1)), packL (rcCodes (full.take (k - 1)))) ]),
+       (shownBases cells).flatMap (fun n =>
+          let full := u ++ [code n] ++ l
+          [ (packL full, samplesOf cells n), (packL (rcCodes full), samplesOf cells n) ])) :=
+  LOG.rowGraph_spec W k hk hw u l hu hl hcu hcl cells
+
+theorem T17_graph_sets (cells : List UInt8) (n : UInt8) :
+    (n ∈ shownBases cells ↔ n ∈ ([65, 67, 71, 84] : List UInt8) ∧
+      ∃ i, i < cells.length ∧ cells.getD i 45 ≠ 45 ∧ n ∈ degenerate (cells.getD i 45)) ∧
+    (∀ i, i ∈ samplesOf cells n ↔
+      i < cells.length ∧ cells.getD i 45 ≠ 45 ∧ n ∈ degenerate (cells.getD i 45)) ∧
+    (samplesOf cells n).Pairwise (· < ·) :=
+  ⟨LOG.mem_shownBases cells n, fun i => LOG.mem_samplesOf cells n i, LOG.samplesOf_pairwise cells n⟩
+
+/-- the codes in `T17_graph` are those of the letters `U n L` of the decoded arms -/
+theorem T17_graph_codes (u l : List Nat) (hcu : ∀ c ∈ u, c < 4) (hcl : ∀ c ∈ l, c < 4) (n : UInt8) :
+    (u.map decodeBase ++ [n] ++ l.map decodeBase).map code = u ++ [code n] ++ l :=
+  LOG.map_code_full u l hcu hcl n
+
+/-! ### non-vacuity -/
+
+example : checkMissingData [65, 67, 45, 78, 65] = (true, 2) := by decide
+example : checkMissingData [65, 65, 45, 82] = (false, 2) := by decide
+example : complementSnp [65, 67, 71, 84, 45, 78] = some [84, 71, 67, 65, 45, 78] := by decide
+example : complementSnp [65, 82] = none := by decide
+example : checkMissingData [84, 71, 45, 78, 84] = checkMissingData [65, 67, 45, 78, 65] := by decide
+example : getPotentialSnp [([65, 67, 71], [1, 2, 5]), ([65, 71, 71], [2, 1]), ([84], [])] = [1] := by decide
+example : getPotentialSnp [([65, 67], [1, 0]), ([84, 71], [0])] = [0, 1] := by decide
+example :
+    createFastaAndVcf [65, 67, 71, 84, 88] 2 [(3, [65, 67]), (1, [71, 45])]
+      = { snpSeqs := [[71, 65], [45, 67]],
+          pseudo := some [[65, 71, 71, 65, 78], [65, 45, 71, 67, 78]],
+          vcf := [(1, 67, [71, 45]), (3, 84, [65, 67])] } := by decide +kernel
+example : (([(3, [65, 67]), (1, [71, 45])] : List (Nat × List UInt8)).map (·.1)).Nodup := by decide
+example : altBases 67 [71, 45, 67, 84, 71, 78] = [71, 84] := by decide
+example : [71, 45, 67, 84, 71, 78].map (gtIndex 67 [71, 45, 67, 84, 71, 78])
+    = [some 1, none, some 0, some 2, some 1, none] := by decide
+example : [71, 45, 67, 84, 71, 78].map (fun b => decode 67 [71, 84] (gtIndex 67 [71, 45, 67, 84, 71, 78] b))
+    = [71, 46, 67, 84, 71, 46] := by decide
+example : ValidK 5 ∧ WidthOk 64 5 := by unfold ValidK WidthOk; omega
+example : rowGraph 64 5 (packL ([0, 1] ++ [2, 3])) [65, 45, 82, 78] =
+    ([(18,75),(75,46),(22,91),(79,62),(30,123),(71,30),(26,107),(67,14)],
+     [(75,[0,2,3]),(302,[0,2,3]),(91,[3]),(318,[3]),(123,[2,3]),(286,[2,3]),(107,[3]),(270,[3])]) := by
+  decide +kernel
 
 end SkaModel.Props.C17
